@@ -1,4 +1,4 @@
-import KsVerif.Proofs.C03
+import KsVerif.Proofs.C03Server
 
 /-!
 # C03: from the bytes of a message to what is reported of it
@@ -11,7 +11,7 @@ one on which net/http invents a header (`Pragma: no-cache` without `Cache-Contro
 -/
 
 namespace KsVerif.Proofs.C03Report
-open KsVerif KsVerif.Http KsVerif.Http.Wire KsVerif.Http.Spec KsVerif.Proofs.C03
+open KsVerif KsVerif.Http KsVerif.Http.Wire KsVerif.Http.Spec KsVerif.Proofs.C03 KsVerif.Proofs.C03Server
 
 theorem isFraming_cl : isFramingHeader (bytesOfString "Content-Length") = true := by decide
 theorem isFraming_te : isFramingHeader (bytesOfString "Transfer-Encoding") = true := by decide
@@ -54,5 +54,93 @@ theorem c03_reported_response (m : Msg) (rest : Bytes) (hw : WfResp m rest) (hnc
 
 /-- not vacuous: `exReq` (a chunked POST with two header fields) invents nothing -/
 example : NoInvention (parsedOf exReq).headers := by unfold NoInvention; decide
+
+/-! ### whole conversations: the model's observation is the spec's expectation -/
+
+theorem messageSx_req (m : Msg) (hreq : m.isRequest = true) (hni : NoInvention (parsedOf m).headers) :
+    messageSx (parsedOf m) =
+      .list [.atom "req", Sx.ofBytes m.method, Sx.ofBytes m.target, Sx.ofNat m.minor, headersSx m.headers, Sx.ofBytes m.body] := by
+  have h : (parsedOf m).isRequest = true := by simp [parsedOf, hreq]
+  simp only [messageSx, h, if_true]
+  unfold NoInvention at hni
+  rw [hni]
+  simp only [headersSx, reported_parsedOf]
+  simp [parsedOf]
+
+theorem messageSx_resp (m : Msg) (hresp : m.isRequest = false) (hni : NoInvention (parsedOf m).headers) :
+    messageSx (parsedOf m) =
+      .list [.atom "resp", Sx.ofNat m.status, Sx.ofNat m.minor, headersSx m.headers, Sx.ofBytes m.body] := by
+  have h : (parsedOf m).isRequest = false := by simp [parsedOf, hresp]
+  simp only [messageSx, h, Bool.false_eq_true, if_false]
+  unfold NoInvention at hni
+  rw [hni]
+  simp only [headersSx, reported_parsedOf]
+  simp [parsedOf]
+
+/-- the items: k-th request with k-th response, each reported as sent -/
+theorem items_meet_spec : ∀ (conv : List (Msg × Msg)),
+    (∀ p ∈ conv, p.1.isRequest = true ∧ NoInvention (parsedOf p.1).headers ∧ p.2.isRequest = false ∧ NoInvention (parsedOf p.2).headers) →
+    (((conv.map fun p => parsedOf p.1).zip (conv.map fun p => parsedOf p.2)).map
+        fun (x : Message × Message) => Sx.list [messageSx x.1, messageSx x.2, .atom "cs"]) =
+      conv.map fun (p : Msg × Msg) => expectedItem p.1 p.2
+  | [], _ => rfl
+  | p :: conv, h => by
+    obtain ⟨h1, h2, h3, h4⟩ := h p (by simp)
+    have ih := items_meet_spec conv (fun x hx => h x (by simp [hx]))
+    simp only [List.map_cons, List.zip_cons_cons, ih, messageSx_req p.1 h1 h2, messageSx_resp p.2 h3 h4, expectedItem]
+
+/-- **The observation of a well-formed conversation is what the spec expects** - for every number of pipelined
+    exchanges, every method, target, header list and body, length- or chunk-delimited: one item per exchange, the
+    k-th request with the k-th response, each message reported exactly as sent, nothing left over.  (Excluded, as in
+    the theorems this composes: bodies delimited by the end of the stream, interim statuses as final ones, and the
+    messages on which net/http invents a header.) -/
+theorem c03_observe_meets_spec (conv : List (Msg × Msg))
+    (hq : ∀ p ∈ conv, WfReq p.1 ∧ NoInvention (parsedOf p.1).headers)
+    (hr : ∀ p ∈ conv, (∀ rest, WfResp p.2 rest) ∧ p.2.framing ≠ .close ∧ ¬ interimStatus p.2.status ∧
+      NoInvention (parsedOf p.2).headers) :
+    observe ((conv.map fun p => encMsgCore p.1).flatten) ((conv.map fun p => encMsgCore p.2).flatten) = expected conv := by
+  let qs := conv.map (·.1)
+  let rs := conv.map (·.2)
+  have hcb : (conv.map fun p => encMsgCore p.1) = qs.map encMsgCore := by simp [qs, List.map_map]
+  have hsb : (conv.map fun p => encMsgCore p.2) = rs.map encMsgCore := by simp [rs, List.map_map]
+  have hwq : ∀ m ∈ qs, WfReq m := by
+    intro m hm; simp only [qs, List.mem_map] at hm; obtain ⟨p, hp, rfl⟩ := hm; exact (hq p hp).1
+  have hwr : ∀ m ∈ rs, ∀ rest, WfResp m rest := by
+    intro m hm; simp only [rs, List.mem_map] at hm; obtain ⟨p, hp, rfl⟩ := hm; exact (hr p hp).1
+  have hnc : ∀ m ∈ rs, m.framing ≠ .close := by
+    intro m hm; simp only [rs, List.mem_map] at hm; obtain ⟨p, hp, rfl⟩ := hm; exact (hr p hp).2.1
+  have hfin : ∀ m ∈ rs, ¬ interimStatus m.status := by
+    intro m hm; simp only [rs, List.mem_map] at hm; obtain ⟨p, hp, rfl⟩ := hm; exact (hr p hp).2.2.1
+  have hA : parseAll true (((qs.map encMsgCore).flatten).length + 1) ((qs.map encMsgCore).flatten) = qs.map parsedOf :=
+    c03_client_half qs hwq _ (by have := count_le_bytes qs; omega)
+  have hB : (parseAll false (((rs.map encMsgCore).flatten).length + 1) ((rs.map encMsgCore).flatten)).filter
+      (fun m => !(100 ≤ m.status && m.status < 200 && m.status != 101)) = rs.map parsedOf := by
+    rw [c03_server_half rs hwr hnc _ (by have := count_le_bytes rs; omega)]
+    rw [List.filter_eq_self]
+    intro x hx
+    simp only [List.mem_map] at hx
+    obtain ⟨m, hm, rfl⟩ := hx
+    have hfm := hfin m hm
+    unfold interimStatus at hfm
+    simp only [parsedOf]
+    by_cases a : 100 ≤ m.status
+    · by_cases b : m.status < 200
+      · by_cases c : m.status = 101
+        · simp [a, b, c]
+        · exact absurd ⟨a, b, c⟩ hfm
+      · simp [a, b]
+    · simp [a]
+  unfold observe expected
+  rw [hcb, hsb]
+  simp only [hA, hB]
+  have hlen : ((qs.map parsedOf).zip (rs.map parsedOf)).length = conv.length := by simp [qs, rs]
+  have hitems := items_meet_spec conv (fun p hp =>
+    ⟨(hq p hp).1.isReq, (hq p hp).2, ((hr p hp).1 []).isResp, (hr p hp).2.2.2⟩)
+  have hzip : (qs.map parsedOf).zip (rs.map parsedOf) =
+      (conv.map fun p => parsedOf p.1).zip (conv.map fun p => parsedOf p.2) := by
+    simp [qs, rs, List.map_map, Function.comp_def]
+  rw [hzip] at hlen ⊢
+  rw [hitems]
+  simp [qs, rs, hlen]
 
 end KsVerif.Proofs.C03Report
